@@ -389,7 +389,7 @@ func c11sServerSocketsOpen(servPort int, ports map[int]bool) (open map[int]bool,
 
 type c11sRoundCfg struct {
 	Name  string   `json:"config"`
-	Kind  string   `json:"kind"` // listing | slots | expiry | nonce
+	Kind  string   `json:"kind"` // listing | slots | expiry | nonce | expstorm
 	Flags []string `json:"flags"`
 	Hooks string   `json:"verifhook,omitempty"`
 	Seed  uint64   `json:"seed"`
@@ -433,6 +433,17 @@ func c11sRounds(tier string, seed uint64) []c11sRoundCfg {
 	if tier == "thorough" {
 		for rep := 0; rep < 4; rep++ {
 			out = append(out, c11sRoundCfg{Name: "same-handshake-jitter", Kind: "nonce", Flags: flags("--max-receivers-per-sender", "0"), Hooks: jit()})
+		}
+	}
+	// appended after them for the same reason: many sessions expiring beside creations, joins and departures (c11_serv_expstorm.go)
+	// (their hook schedules come from a generator of their own: a jit() here would shift the seeds of all rounds above)
+	out = append(out, c11sRoundCfg{Name: "session-lifetime-40ms-storm", Kind: "expstorm", Flags: c11xFlags()})
+	if tier == "thorough" {
+		xr := vk.NewRng(seed ^ vk.HashStr("c11serv-expstorm"+tier))
+		for rep := 0; rep < 3; rep++ {
+			s := xr.U64() % 1000000
+			out = append(out, c11sRoundCfg{Name: "session-lifetime-40ms-storm-jitter", Kind: "expstorm", Flags: c11xFlags(),
+				Hooks: fmt.Sprintf("hub.remove.afterUnlink=jitter(25,%d);hub.remove.beforeGC=jitter(25,%d);hub.broadcast.afterCopy=jitter(2,%d)", s, s+1, s+2)})
 		}
 	}
 	for i := range out {
@@ -696,6 +707,19 @@ func c11sListedIDs(pl []protocol.PeerInfo) map[string]int {
 // error written synchronously on this connection, in order. When the error for
 // the marker has arrived, every earlier target without an error was routable.
 func c11sRouteProbe(c *vk.WSClient, targets []string, marker string) (notFound map[string]bool, ok bool) {
+	notFound, ok, _ = c11sRouteProbeSent(c, targets, marker)
+	return notFound, ok
+}
+
+// c11sRouteProbeSent is c11sRouteProbe that also tells whether the probe was written at all: sent == false means a write
+// on the asking connection failed - that connection is over for the client (closed or reset, e.g. by the expiry of its
+// session), which is not "no answer within the watchdog" and must not be read as a handler that makes no progress.
+func c11sRouteProbeSent(c *vk.WSClient, targets []string, marker string) (notFound map[string]bool, ok bool, sent bool) {
+	notFound, ok = c11sRouteProbeImpl(c, targets, marker, &sent)
+	return
+}
+
+func c11sRouteProbeImpl(c *vk.WSClient, targets []string, marker string, sent *bool) (notFound map[string]bool, ok bool) {
 	from := c.Len()
 	for _, t := range targets {
 		if c.SendText(c11sEnvJSON(protocol.TypeOffer, t)) != nil {
@@ -705,6 +729,7 @@ func c11sRouteProbe(c *vk.WSClient, targets []string, marker string) (notFound m
 	if c.SendText(c11sEnvJSON(protocol.TypeOffer, marker)) != nil {
 		return nil, false
 	}
+	*sent = true
 	errTarget := func(r vk.WSRecv) (string, bool) {
 		if r.BadJSON || r.Env.Type != protocol.TypeError {
 			return "", false
@@ -1591,6 +1616,7 @@ func runC11Serv(e *Env) {
 	R.Rule = "evaluations = client connections driven against the real thruserv that ended at a chosen point of their life (9 disconnect points x FIN/RST/close frame, receiver/sender role, fresh/re-used id; " +
 		"plus non-readers: 3 stall points x FIN/RST that stay connected without reading until the server-side write is blocked, alone / replaced by a second connection under their id / during the churn / holding receiver slots / until the session expires; " +
 		"plus connections that present byte-identical handshake fields (Sec-WebSocket-Key etc.) while live together: a reconnect under the same id, two peers of one session, peers of two sessions x FIN/RST/close frame of the one that leaves); " +
+		"plus, in the expiry-storm rounds, WebSocket connections into 40 ms sessions of a server on which thousands of other sessions are created and expire (fates: sender leaves at once / receiver or sender stays until the expiry ends the connection / late join beside the expiry); " +
 		"a distinct non-trivial case = (server configuration, session kind, disconnect point/close, role, id class, path the server's handler took per its own output: no-add | add-early-exit | add-readloop) of a case that reached its point"
 	bin := filepath.Join(e.BinDir, "thruserv")
 	if _, err := os.Stat(bin); err != nil {
@@ -1633,11 +1659,14 @@ func runC11Serv(e *Env) {
 			rd.runExpiry()
 		case "nonce":
 			rd.runNonce()
+		case "expstorm":
+			rd.runExpiryStorm()
 		}
 		rd.serverHealth()
 		rd.closeAll()
 		rd.hookHits()
 		srv.Stop()
+		rd.raceReports()
 		nCases, nReached := rd.nonceConns, rd.nonceConnsReached
 		var notReached []any
 		for _, s := range rd.sess {
@@ -1729,5 +1758,17 @@ func runC11Serv(e *Env) {
 		R.Require(c["nonce_cases_reached:"+k] >= 3, fmt.Sprintf("connections with equal handshake fields, %s: only %d cases reached their point", k, c["nonce_cases_reached:"+k]))
 	}
 	R.Require(c["nonce_connected_peers_judged"] >= 40 && c["nonce_departed_ids_checked"] >= 20, fmt.Sprintf("connections with equal handshake fields: only %d connected / %d departed peers judged", c["nonce_connected_peers_judged"], c["nonce_departed_ids_checked"]))
+	// many sessions expiring beside creations, joins and departures (c11_serv_expstorm.go)
+	R.Require(c["expstorm_sessions_created"] >= 5000 && c["expstorm_sessions_reported_expired"] >= 5000, fmt.Sprintf("expiry storm: only %d sessions created / %d reported expired", c["expstorm_sessions_created"], c["expstorm_sessions_reported_expired"]))
+	R.Require(c["expstorm_sessions_expired_while_all_creators_were_creating"] >= 1000, fmt.Sprintf("expiry storm: only %d sessions had expired while all creators were still creating", c["expstorm_sessions_expired_while_all_creators_were_creating"]))
+	for _, f := range c11xFates {
+		R.Require(c["expstorm_fate_reached:"+f] >= 5, fmt.Sprintf("expiry storm: fate %s reached only %d times", f, c["expstorm_fate_reached:"+f]))
+	}
+	R.Require(c["expstorm_sessions_deleted_by_their_sender"] >= 5 && c["expstorm_connections_ended_by_expiry:receiver"] >= 5 && c["expstorm_connections_ended_by_expiry:sender"] >= 5,
+		"expiry storm: too few senders left before their session expired / too few connections were ended by an expiry")
+	R.Require(c["expstorm_joins_served_after_storm"] >= 1, "expiry storm: no join into a brand-new session was served after the storm")
+	if e.Race {
+		R.Require(c["server_race_logs_checked"] >= started, fmt.Sprintf("race stage: the race log of the server process was looked up in only %d of %d rounds", c["server_race_logs_checked"], started))
+	}
 	R.Require(c["server_hook_hits:hub.remove.afterUnlink"] >= 100, fmt.Sprintf("the server's own remove path was observed only %d times (hook log)", c["server_hook_hits:hub.remove.afterUnlink"]))
 }
